@@ -91,3 +91,27 @@ claim('C20',
       'Not GMP-bit-compatible by design of rng.py: multipliers from L\'Ecuyer/Steele-Vigna, whole-byte framing of each output. Lehmer(bits=0) does not terminate in Python and is outside the model.',
       'Lean 4 proofs (range, model = Java/LCG specification, counter-example for the pinned TruncLcgRand) over an executable model + dual-variant differential correspondence with the Python implementation',
       'DESIGN.md section 5 C20, section 3.8, section 6 D5')
+
+claim('C14',
+      'Lean theorems (Props/C14.lean). PROVED FOR ALL INPUTS (no size bound): '
+      '(1) native_is_shortest_lfsr: for every bit sequence s (as an integer) and every length, the model of LinearComplexityNative '
+      '(the sb/sc big-integer loop, mirrored line by line; it also stands for the value the C++ code returns to the Python wrapper '
+      'LinearComplexity, wrapper_agrees) does not raise and returns the length of the shortest LFSR generating s_0..s_{len-1} '
+      '(an LFSR of that length generates the sequence and none shorter does; equivalently the brute-force minimum over all tap vectors). '
+      'Proof: native_simulates_textbook (register invariant sc = (C*S) >> (n-m), sb = (B*S) >> (n+1-x) over carry-less products, giving '
+      'native = textbook Berlekamp-Massey with explicit discrepancy s_n + sum C_i s_{n-i}) and textbook_correct (Massey\'s theorem). '
+      '(2) textbook_count / textbook_count_finset / model_count: for all n >= 1 and all m the number of n-bit sequences of linear '
+      'complexity m is LfsrCount(n, m); count_total: sum_m LfsrCount(n, m) = 2^n; logprob_count: LfsrCount(n, m) = 2^(n + LfsrLogProbability(n, m)) '
+      'wherever LfsrLogProbability does not raise, and it raises exactly outside 1 <= n, 0 <= m <= n (logprob_raises_iff); native_step_structure. '
+      'BOUNDED KERNEL ENUMERATION ONLY (redundant cross-check of the executable definitions): bounded_agree (all sequences of length <= 8: native = textbook = brute force), '
+      'bounded_native_textbook_le10. '
+      'CORRESPONDENCE ONLY (differential runs, no theorem): that the Python functions and BOTH C++ variants built from the working tree '
+      '(portable; -mpclmul -msse2 -D__CLMUL__) compute the same function as the model: every sequence of length 0..14 (thorough 0..20) on all four implementations, '
+      'lengths 0..1100 around every 64-bit word boundary x {random, sparse, 0..0, 1..1, periodic, leading/trailing zeros, LFSR, LFSR with a flipped bit at a block edge, zero run then random}, '
+      '12k structured multi-word cases, sampled lengths to 2^14 (thorough 2^17 and ASan/UBSan builds of both variants), values of s with bits above length, negative/huge lengths, raw byte strings of other sizes. '
+      'Known findings (reported, exit 0): CLMUL variant crashes on the empty sequence (D8); LfsrCount(0, 0) = 0 although the empty sequence exists (count_length_zero_pinned; count_repaired proves the patched guard exact for every n).',
+      'Trusted: Lean kernel, correspondence harness, ctypes shim standing in for pybind11 (g++ builds of berlekamp_massey.cc from the working tree). '
+      'The C++ code is NOT modelled word by word: its agreement with the model rests on the differential runs only. s is a non-negative integer in the model; negative s is only probed '
+      '(LinearComplexityNative then equals its value on s mod 2^length; LinearComplexity raises OverflowError). setup.py passes -mpclmul, which defines __PCLMUL__ and not __CLMUL__ with gcc, so a stock build uses the portable variant (recorded in the evidence, not a violation).',
+      'Lean 4 proofs (Massey\'s theorem, simulation invariant, counting recursion) over an executable model + differential correspondence with two Python and two C++ implementations',
+      'DESIGN.md section 5 C14, section 6 D8')
